@@ -104,6 +104,18 @@ func placed(placement string, svc, top map[string]any, noise map[string]any) (lo
 		b := map[string]any{"image": "nginx"}
 		mergeInto(b, cloneTree(svc).(map[string]any))
 		return loadCase{Files: []memFile{{Name: "compose.yaml", Content: emitYAML(doc, nil)}, {Name: "base/base.yaml", Content: emitYAML(map[string]any{"services": map[string]any{"tmpl": b}}, nil)}}, Main: []string{"compose.yaml"}}, true, true
+	case "extended-base-same-file":
+		// (the template service exists on both sides of a comparison, also when nothing is put into it)
+		doc := base()
+		services := doc["services"].(map[string]any)
+		web := services["web"].(map[string]any)
+		delete(web, "image")
+		web["extends"] = map[string]any{"service": "tmpl"}
+		mergeInto(doc, cloneTree(top).(map[string]any))
+		b := map[string]any{"image": "nginx"}
+		mergeInto(b, cloneTree(svc).(map[string]any))
+		services["tmpl"] = b
+		return loadCase{Files: []memFile{{Name: "compose.yaml", Content: emitYAML(doc, nil)}}, Main: []string{"compose.yaml"}}, false, true
 	case "included":
 		doc := base()
 		mergeInto(doc["services"].(map[string]any)["web"].(map[string]any), cloneTree(svc).(map[string]any))
@@ -120,6 +132,7 @@ type c11Rule struct {
 	TopI, TopE, TopD              map[string]any // top-level fragments
 	DB                            map[string]any // extra attributes of the second service `db`
 	Web                           map[string]any // attributes `web` already has in the base document, whatever the placement
+	Only                          []string       // placements the rule applies to (nil = all)
 	Check                         string         // absolute check applied to the `different` variant
 	AbsentCheck                   string         // absolute check applied to the implicit variant
 }
@@ -199,6 +212,10 @@ func c11Rules() []c11Rule {
 		{Name: "secret-target-across-files", Web: kvm("secrets", []any{"sec1"}),
 			Implicit: kvm("secrets", []any{kvm("source", "sec1", "mode", 288)}), Explicit: kvm("secrets", []any{kvm("source", "sec1", "target", "/run/secrets/sec1", "mode", 288)}),
 			TopI: kvm("secrets", kvm("sec1", kvm("file", "/s"))), TopE: kvm("secrets", kvm("sec1", kvm("file", "/s")))},
+		// the base of an extends chain gives the build context with the short syntax, the extending service
+		// adds long-syntax attributes without a context: the context is the base's, not the default
+		{Name: "build-context-from-short-syntax-base", Only: []string{"extended-base", "extended-base-same-file"}, Web: kvm("build", kvm("target", "prod", "args", kvm("A", "1"))),
+			Implicit: kvm("build", "./ctx"), Explicit: kvm("build", kvm("context", "./ctx"))},
 		{Name: "port-protocol-and-mode", Implicit: kvm("ports", []any{kvm("target", 80, "published", "8080")}), Explicit: kvm("ports", []any{kvm("target", 80, "published", "8080", "protocol", "tcp", "mode", "ingress")}),
 			Different: kvm("ports", []any{kvm("target", 80, "published", "8080", "protocol", "udp", "mode", "host")}), Check: "port-udp-host"},
 		{Name: "secret-target", Implicit: kvm("secrets", []any{kvm("source", "sec1")}), Explicit: kvm("secrets", []any{kvm("source", "sec1", "target", "/run/secrets/sec1")}),
@@ -380,7 +397,7 @@ func c11Check(c *Ctx, cs c11Case) *Failure {
 	return nil
 }
 
-var c11Placements = []string{"main", "override", "extended-base", "included"}
+var c11Placements = []string{"main", "override", "extended-base", "included", "extended-base-same-file"}
 
 func c11Cases(noise map[string]any, noiseKey string) []c11Case {
 	var out []c11Case
@@ -400,6 +417,15 @@ func c11Cases(noise map[string]any, noiseKey string) []c11Case {
 			noise = n2
 		}
 		for _, pl := range c11Placements {
+			if len(r.Only) > 0 {
+				applies := false
+				for _, o := range r.Only {
+					applies = applies || o == pl
+				}
+				if !applies {
+					continue
+				}
+			}
 			a, disk1, ok1 := placed(pl, r.Implicit, r.TopI, noise)
 			explicit := r.Explicit
 			if pl == "extended-base" {
